@@ -12,12 +12,15 @@
             (2 seed len)                                   none
             (3 name key iv ((seed len) ...))               a cipher made by the factory: messages
                                                            encrypted in order, decrypted in reverse order
+            (4 bs mul key iv dec seed len)                 crypto/cipher's own CFB stream over the toy block
+                                                           (ties the model std_cfb to the stock library)
    observed = (panicked (out ...))        for 0
               (keystream enc dec)         for 1   (dec = Decrypt(enc) on a second instance)
               (enc dec)                   for 2
               (panicked ((enc dec ref) ...))  for 3   (ref = the stock implementation's output:
                                                        crypto/cipher CFB with the first IV block /
-                                                       salsa20.XORKeyStream / identity; an oracle table) *)
+                                                       salsa20.XORKeyStream / identity; an oracle table)
+              (panicked out)              for 4 *)
 From Coq Require Import ZArith NArith List Bool Arith.
 From FV Require Import Lib.Sx C16.Model.
 Import ListNotations.
@@ -144,5 +147,12 @@ Definition check (c : sx) : verdict :=
                    (check_that (nlist_eqb (none_decrypt enc) dec) (VMismatch 8)))
   | SList [SList [SInt 3%Z; SBytes _; SBytes _; SBytes _; SList specs]; SList [SInt panicked; SList obs]] =>
       if Z.eqb panicked 1 then VPropFail 7 else prop_factory specs obs
+  | SList [SList [SInt 4%Z; SInt bs; SInt mul; SBytes key; SBytes iv; SInt dec; SInt seed; SInt len];
+           SList [SInt panicked; SBytes out]] =>
+      let bs := Z.to_nat bs in
+      match std_cfb bs (toy bs (Z.to_N mul) key) (Z.eqb dec 1) iv (lcg seed len) with
+      | None => check_that (Z.eqb panicked 1) (VMismatch 9)
+      | Some m => check_that (Z.eqb panicked 0 && nlist_eqb m out) (VMismatch 9)
+      end
   | _ => VBad
   end.
